@@ -149,6 +149,15 @@ func (t *IntervalAwareForceTicker) ResetWithInterval(newInterval time.Duration) 
 	t.resetMtx.Lock()
 	defer t.resetMtx.Unlock()
 
+	t.resetWithIntervalUnsafe(newInterval)
+}
+
+// resetWithIntervalUnsafe restarts the ticker with the given interval.
+//
+// NOTE: the resetMtx must be held when calling this function.
+func (t *IntervalAwareForceTicker) resetWithIntervalUnsafe(
+	newInterval time.Duration) {
+
 	// Shutdown the internal clock ticker without changing isActive.
 	t.ticker.Stop()
 	close(t.quit)
@@ -170,7 +179,10 @@ func (t *IntervalAwareForceTicker) ResetWithInterval(newInterval time.Duration) 
 // Reset restarts the ticker interval, causing the next clock tick to occur in
 // the configured interval.
 func (t *IntervalAwareForceTicker) Reset() {
-	t.ResetWithInterval(t.interval)
+	t.resetMtx.Lock()
+	defer t.resetMtx.Unlock()
+
+	t.resetWithIntervalUnsafe(t.interval)
 }
 
 // ForceTick force feeds an event into the ticker channel and resets the
@@ -194,7 +206,11 @@ func (t *IntervalAwareForceTicker) LastTimedTick() time.Time {
 // NextTickIn returns the approximate duration until the next timed tick will
 // occur.
 func (t *IntervalAwareForceTicker) NextTickIn() time.Duration {
-	nextTick := t.LastTimedTick().Add(t.interval)
+	t.resetMtx.Lock()
+	interval := t.interval
+	t.resetMtx.Unlock()
+
+	nextTick := t.LastTimedTick().Add(interval)
 	durationToNextTick := time.Until(nextTick)
 	if durationToNextTick < 0 {
 		return 0
